@@ -4,7 +4,7 @@ From Verif Require Import Sx Str Tok.
 From Verif.Model Require Import CharRef TokBase Ser.
 From Verif.Spec Require Import TokSpec.
 From Verif.Gen Require Import Consts.
-From Verif.Proofs Require Import C08 SpecTac C08comment C08doctype C08tag C08raw.
+From Verif.Proofs Require Import C08 SpecTac C08comment C08doctype C08tag C08raw C08units.
 Import ListNotations.
 Local Open Scope N_scope.
 
@@ -154,6 +154,27 @@ Theorem c08_rcdata_element_reads_back : forall name text rest a sc t o cd,
                           (OEnd (lower_str name) [] false :: singles_r text ++ o) cd false).
 Proof. exact rcdata_element_roundtrip. Qed.
 
+(* WHOLE STREAMS WITH raw-text and RCDATA elements.  The tokenizer never leaves the data state by itself: the parser
+   switches it after certain start tags.  [reads] (Proofs/C08units.v) spells that out -- after the start tag of style,
+   xmp, iframe, noembed, noframes the tokenizer goes on in RAWTEXT, after title and textarea in RCDATA -- and for EVERY
+   stream of safe tokens and such elements (text of raw-text elements without "</" and U+0000, ANY text without U+0000
+   in title/textarea) what Ser writes is read back unit by unit as exactly those tokens *)
+Theorem c08_units_roundtrip : forall o, qc_ok o -> forall us txt errs rest cu tm out0 cd,
+  Forall (unit_ok o) us -> ser_loop o false (flat_map flatten us) = Some (txt, errs) ->
+  exists k', reads o us (mk_tk dataState (txt ++ rest) cu tm out0 cd false) k' /\
+             st k' = dataState /\ inp k' = rest /\ out k' = rev (flat_map (rd_unit o) us) ++ out0 /\
+             cdata_ok k' = cd /\ bad k' = false.
+Proof. exact units_roundtrip. Qed.
+Example c08_units_example :
+  let o := mk_sopts 2 34 true true false true false false true in
+  let us := [URc None s_title [] [97;60;98;38]; URaw None s_style [((None, [105;100]), [120])] [112;62;113;123;125;60];
+             UTok (TChars [120])] in
+  qc_ok o /\ Forall (unit_ok o) us /\
+  ser_loop o false (flat_map flatten us) =
+  Some ([60;116;105;116;108;101;62; 97;38;108;116;59;98;38;97;109;112;59; 60;47;116;105;116;108;101;62;
+         60;115;116;121;108;101;32;105;100;61;120;62; 112;62;113;123;125;60; 60;47;115;116;121;108;101;62; 120], []).
+Proof. split; [left; reflexivity|]. split; [repeat constructor|]. vm_compute. reflexivity. Qed.
+
 (* non-vacuity of the stream theorem: <a href=x&amp;y hidden="">1 &lt; 2</a> with the default options *)
 Example c08_stream_example :
   let o := mk_sopts 2 34 true true false true false false true in
@@ -172,7 +193,8 @@ Proof. split; vm_compute; reflexivity. Qed.
 
 (* PARTIAL.  Proved: text, quoted and unquoted values, tag and attribute names, start and end tags, comments,
    doctypes, and the lift to whole streams of these without raw-text elements.  and, element by element, the content and end tag of raw-text, script (without "<!") and RCDATA elements read in
-   the state the parser switches to.  Not proved: the lift of those three to whole streams (the parser's state
-   switch is not part of S_tok), script text containing "<!" (refuted in general, see above), entity tokens, identifiers containing ">"; these are decided on every run by
+   the state the parser switches to.  and the lift of raw-text and RCDATA elements to whole streams with the parser's state switches made
+   explicit (c08_units_roundtrip).  Not proved: script elements inside such streams, script text containing "<!"
+   (refuted in general, see above), entity tokens, identifiers containing ">"; these are decided on every run by
    re-tokenizing the real serializer's output with S_tok (extracted) for generated trees x options -- a test,
    with seven listed findings.  Ser itself is a hand model tied to the code by the correspondence run. *)
